@@ -4,21 +4,18 @@ import core, tlc
 import lexfam, prattfam as pf
 
 
-def supervised_replay(run, name, path, kind, total, timeout=300, max_restarts=4):
+def supervised_replay(run, name, path, kind, total, timeout=60, max_restarts=4):
     """Run total-replay in a child process that announces each input before running it; if the child dies (abort / stack
     exhaustion) or hangs, the announced input is the culprit and the replay resumes after it."""
     core.build_harness("dev")
     start, restarts, ran = 0, 0, 0
     recs = None
     while start < total:
-        try:
-            p = subprocess.run([core.vh_path(), "total-replay", path, "--kind", kind, "--seed", str(run.seed), "--from", str(start), "--to", str(total)],
-                               cwd=core.VERIF, stdout=subprocess.PIPE, stderr=subprocess.PIPE, text=True, timeout=timeout)
-            rc, out, timed = p.returncode, p.stdout, False
-        except subprocess.TimeoutExpired as e:
-            rc, out, timed = -1, (e.stdout or b"").decode() if isinstance(e.stdout, bytes) else (e.stdout or ""), True
+        rc, out, timed, errtxt = core.run_stall_watchdog([core.vh_path(), "total-replay", path, "--kind", kind, "--seed", str(run.seed), "--from", str(start), "--to", str(total)], stall_s=timeout)
+        if timed:
+            rc = -1
         if rc == 2:
-            raise tlc.ToolError("total-replay tool error: %s" % p.stderr[-500:])
+            raise tlc.ToolError("total-replay tool error: %s" % errtxt[-500:])
         last_at, done = None, False
         for l in out.splitlines():
             if not l.startswith("{"):
